@@ -180,10 +180,18 @@ func Gen(t *rapid.T) Case {
 		case "wire-cl", "wire-chunked", "direct-sized", "direct-unsized", "direct-minus1":
 			q.Payload = kit.BStr(rapid.SampledFrom(payloads).Draw(t, "payload"))
 		}
+		if (q.Body == "wire-cl" || q.Body == "wire-cl0") && rapid.IntRange(0, 2).Draw(t, "padded-length") == 0 {
+			q.ZeroPad = rapid.IntRange(1, 3).Draw(t, "zero-pad")
+		}
+		if rapid.IntRange(0, 2).Draw(t, "with-accept") == 0 {
+			q.Accept = rapid.SampledFrom(acceptValues).Draw(t, "accept")
+		}
 		return q
 	}), 1, 12).Draw(t, "requests")
 	return c
 }
+
+var acceptValues = []string{"application/json", "*/*", "application/*", "text/plain, application/json;q=0.5", "application/xml", "text/plain;q=0.5", "image/*"}
 
 // Classify: a request is non-trivial when it carries a body and its header is not byte-equal to a list entry.
 func Classify(c Case) (bool, []string) {
@@ -218,6 +226,18 @@ func Classify(c Case) (bool, []string) {
 		hdr := q.build(c.Method).Header.Get("Content-Type")
 		v := Judge(c.Consumes, c.Default, q.carriesBody(), hdr)
 		labels = append(labels, "body:"+q.Body)
+		if q.ZeroPad > 0 {
+			labels = append(labels, "content-length:leading-zeros")
+		}
+		if q.unsatisfiableAccept() {
+			if v.Gate && (v.ParseErr || v.Admit == "no") {
+				labels = append(labels, "accept:unsatisfiable+media-type-refused")
+			} else {
+				labels = append(labels, "accept:unsatisfiable (not judged)")
+			}
+		} else if q.Accept != "" {
+			labels = append(labels, "accept:satisfiable")
+		}
 		verbatim := false
 		for _, e := range list {
 			if q.HasCT && e == hdr {
